@@ -11,6 +11,10 @@ theorem gated_of_done (h : Host) (hd : h.done = true) (o : List Out) : gated h o
 theorem gated_of_not_done (h : Host) (hd : h.done = false) (o : List Out) : gated h o = o := by
   simp [gated, hd, send_open_of_not_done]
 
+/-- on the repaired tree a woken close never raises -/
+theorem wakeRaises_suppressed (r d : Bool) : wakeRaises Gen.Shutdown.close_wait_suppresses_not_running r d = false := by
+  simp [wakeRaises, close_wait_suppresses_not_running_holds]
+
 theorem gated_sub (h : Host) (l : List Out) : gated h l = [] ∨ gated h l = l := by
   unfold gated
   split
